@@ -129,6 +129,7 @@ type Engine struct {
 	Unsupported   map[string]int
 	BoundHits     map[string]int
 	FuncsEncoded  map[string]int
+	funcCount     map[*ssa.Function]int
 	Samples       []map[string]interface{}
 	MaxPaths      int
 	Deadline      time.Time
@@ -166,6 +167,7 @@ func NewEngine(prog *ssa.Program, solver *smt.Solver) *Engine {
 		Unsupported:  map[string]int{},
 		BoundHits:    map[string]int{},
 		FuncsEncoded: map[string]int{},
+		funcCount:    map[*ssa.Function]int{},
 		Assumptions:  map[string]bool{},
 		MaxPaths:     1 << 30,
 		maxCex:       3,
@@ -532,6 +534,11 @@ func (e *Engine) Explore(entry *ssa.Function, cfg RunConfig) {
 	if cfg.Timeout > 0 {
 		e.Deadline = time.Now().Add(cfg.Timeout)
 	}
+	defer func() {
+		for fn, n := range e.funcCount {
+			e.FuncsEncoded[fn.String()] += n
+		}
+	}()
 	e.work = [][]decision{nil}
 	if e.ShardN > 1 {
 		// breadth-first expansion until the frontier is wide enough, then keep our share.
